@@ -28,6 +28,15 @@ register('C04', 'p_pgp', 'c04',
          'implementation output (entries + text captured at verify_file); with real gpg the entries are compared with those of the cleartext gpg authenticates.',
          ORACLE + ['GnuPG: --decrypt outputs the authenticated cleartext (dash-unescaped, trailing whitespace removed)'])
 
+register('C05', 'p_pgp', 'c05',
+         'bounded-exhaustive sequences of gpg status lines (16-word vocabulary from doc/DETAILS, length <= 3 quick / 4 thorough) x exit status, '
+         'random longer sequences; the environment handed to gpg under five user environments x proxy; with real gpg: key states '
+         '(valid, expired, revoked, other key, no key, subkey) x owner-trust 2..6, single-byte mutations of a signed Manifest, '
+         '-K against three user keyrings (snapshot compared), -s/-P flag combinations; non-trivial = distinct (exit, status text) / gpg operation',
+         'Theorems in Properties/C05.v against Spec/Accept.v (gpg vocabulary); accept_spec/failure_spec are evaluated by the extracted model on the '
+         'status lines the implementation saw (mocked Popen) and on the status real gpg printed.',
+         ORACLE + ['GnuPG: EXPKEYSIG/REVKEYSIG/GOODSIG/VALIDSIG/TRUST_* are printed as documented in doc/DETAILS; an isolated GNUPGHOME confines key lookup'])
+
 # ---- MANIFEST metadata per claimed property ------------------------------------------------
 NOT_APPLICABLE = {}
 META = {
@@ -47,6 +56,14 @@ META = {
               'the verify flag does not change the entries. The clause about gpg-authenticated cleartext is carried by the real-gpg differential run.',
    level_note='About the model (Model/Text.v load); tie: exhaustive line-class sequences and gpg-signed mutations run through both; '
               'GnuPG behaviour (what it authenticates) is an oracle, exercised with gpg 2.2 on every run.'),
+ 'C05': dict(engine='coq+pgp', design_ref='DESIGN.md section 5 C05',
+   technique='Coq proof of the acceptance rule against a gpg-vocabulary spec + spec evaluated on mocked and real gpg status output',
+   level_text='Proved in Coq for status reports of any length and order (VALIDSIG lines of gpg shape): verify_file returns signature data iff exit status 0, '
+              'GOODSIG, VALIDSIG, validity in {marginal, fully, ultimate}, no EXPKEYSIG/REVKEYSIG; otherwise exactly the specified failure; the accepted '
+              'words in the source are gpg\'s; monotonicity; the signed flag implies verify_file succeeded on the extracted text; the isolated '
+              'environment always overrides GNUPGHOME. Byte-mutation detection and keyring non-interference are GnuPG behaviour, exercised with real gpg.',
+   level_note='About the model Model/OpenPGP.v over generated status_prefixes / trust_accepted; tie: mocked-Popen transcripts and real gpg 2.2 runs. '
+              'The CLI -s/-P/-K clauses are checked on the implementation (argparse and the loader construction are not modelled yet).'),
  'C09': dict(engine='coq+text', design_ref='DESIGN.md section 5 C09',
    technique='Coq theorems (totality of the parser result type by induction over lines; per-class rejection lemmas) + differential runs',
    level_text='Proved in Coq for every text: load returns entries, ManifestSyntaxError or ManifestUnsignedData and nothing else; accepted entries '
